@@ -11,6 +11,23 @@
     makes one of them false this file stops compiling and the check reports
     the broken obligation.
 
+    The answers of the backend (Tx/Publish.v): no error; an error that Is an
+    exported sentinel of package chain ([ASentinel name]; errors.Is, so plain
+    or wrapped with %w alike); an error that Is none.  The list of sentinels
+    is regenerated from the source of package chain together with the branch
+    of publishTransaction each one takes ([sentinel_table]) and must coincide
+    with the model's hand-classified list ([sentinel_classes]): a new sentinel,
+    or one the code starts to treat in its own way, stops this file.
+    [is_rejection a] / [is_mempool a] / [is_known a]: the class of [a] is
+    "rejected for any other reason" / "accepted or already in the mempool" /
+    "already known or confirmed".
+
+    What the property text demands (and nothing more): rejection, or an error
+    returned by the hand-over => forgotten; accepted / already in the mempool
+    => recorded once; already known / confirmed => either of the two, but not
+    "kept AND an error returned" ([C20_known_or_confirmed_consistent];
+    [text_cfg] resolves that freedom the way the code does).
+
     Vocabulary (Tx/Store.v, Ledger.v, Hist.v, Inv.v, Publish.v):
       Inv U s F            the store [s] holds exactly the facts [F] (refinement
                            invariant; by [refinement_statement] every state
@@ -28,9 +45,9 @@
       spec_seen / spec_abandon   ledger facts with t recorded / with t and every
                            unconfirmed transaction that transitively spends its
                            outputs forgotten. *)
-From stdpp Require Import gmap list numbers.
-From Coq Require Import ZArith NArith.
-From Verif Require Import Tx.Store Tx.Ledger Tx.Hist Tx.Inv Tx.InvRemove Tx.Publish Tx.PublishCode
+From stdpp Require Import gmap list numbers strings.
+From Coq Require Import ZArith NArith Strings.String.
+From Verif Require Import Generated.PublishFacts Tx.Store Tx.Ledger Tx.Hist Tx.Inv Tx.InvRemove Tx.Publish Tx.PublishCode
      Tx.PublishProofs Tx.PublishResend.
 From Verif Require Tx.Kahn Tx.KahnProofs Tx.RefineAll.
 Local Open Scope Z_scope.
@@ -43,33 +60,69 @@ Theorem C20_code_shape : code_shape_ok = true.
 Proof. exact eq_refl. Qed.
 Print Assumptions C20_code_shape.
 
-(** The backend rejects a fresh transaction: the caller gets the error, the
-    store satisfies the invariant for the SAME facts as before the attempt,
-    hence every balance, the spendable set and the unconfirmed set are exactly
-    the pre-attempt ones (spent coins spendable again, change not counted). *)
-Theorem C20_rejected_leaves_no_trace : forall U s F t,
+(** The answer classes are complete and tied to the source.  The exported
+    error sentinels that package chain declares NOW (regenerated) are exactly
+    the ones the model classifies ... *)
+Theorem C20_every_sentinel_listed :
+  forall n, In n (map fst sentinel_table) <-> In n (map fst sentinel_classes).
+Proof. exact (same_names_spec sentinel_table sentinel_classes (eq_refl true <: same_names sentinel_table sentinel_classes = true)). Qed.
+Print Assumptions C20_every_sentinel_listed.
+
+(** ... and publishTransaction does with EVERY answer - an error that Is any
+    sentinel whatsoever, or none - what its five branches do with the class of
+    that answer: no sentinel has a treatment of its own.  (The regenerated
+    table holds, per sentinel, the branch that an error which Is it takes; a
+    `case errors.Is(rpcErr, chain.ErrMempoolMinFeeNotMet): return nil, rpcErr`
+    makes that row (false, true) and this theorem false.) *)
+Theorem C20_every_answer_by_class : forall a, cfg_class code_cfg a = code_base (class_of a).
+Proof. exact (table_class_by_class code_base code_table (eq_refl true <: table_sound code_base code_table = true)). Qed.
+Print Assumptions C20_every_answer_by_class.
+
+(** Hence every answer of the rejection class takes the branch that removes
+    the transaction and returns the error ... *)
+Theorem C20_every_rejection_removes_and_errors : forall a, is_rejection a = true -> cfg_class code_cfg a = drop_err.
+Proof. exact (fun a => by_class_rejection code_cfg code_base C20_every_answer_by_class a eq_refl). Qed.
+Print Assumptions C20_every_rejection_removes_and_errors.
+
+(** ... and, for every answer and subscription outcome, the branch the code
+    takes is the branch the property text asks for. *)
+Theorem C20_code_meets_text : forall a ok, branch_of (text_cfg code_cfg) a ok = branch_of code_cfg a ok.
+Proof.
+  exact (meets_text code_cfg code_base C20_every_answer_by_class eq_refl eq_refl eq_refl eq_refl eq_refl eq_refl).
+Qed.
+Print Assumptions C20_code_meets_text.
+
+(** The backend rejects a fresh transaction - with ANY error of the rejection
+    class: the caller gets the error, the store satisfies the invariant for
+    the SAME facts as before the attempt, hence every balance, the spendable
+    set and the unconfirmed set are exactly the pre-attempt ones (spent coins
+    spendable again, change not counted). *)
+Theorem C20_rejected_leaves_no_trace : forall U s F t a,
+  is_rejection a = true ->
   wf_universe U = true -> Inv U s F -> event_ok U F (Seen t) = true -> fresh U F t = true ->
-  exists s', publish code_cfg U t AReject true s = (PError, s') /\
+  exists s', publish code_cfg U t a true s = (PError, s') /\
              Inv U s' F /\ same_observables U s s' F.
 Proof.
-  exact (fun U s F t Hwf => failed_attempt_no_trace U Hwf code_cfg s F t AReject true eq_refl).
+  exact (fun U s F t a Ha Hwf => failed_attempt_no_trace U Hwf code_cfg s F t a true
+                                   (C20_every_rejection_removes_and_errors a Ha)).
 Qed.
 Print Assumptions C20_rejected_leaves_no_trace.
 
-(** "Already known" / "already confirmed" (the backend has it in a block): as
-    above, the transaction does not stay among the unconfirmed ones, and the
-    call reports success. *)
-Theorem C20_known_or_confirmed_not_kept : forall U s F t a,
-  a = AKnown \/ a = AConfirmed ->
+(** "Already known" / "already confirmed" (the backend has it in a block).
+    The property text does not say whether such a transaction is kept; it
+    excludes only "an error is returned and the transaction stays".  So:
+    either nothing is left (facts and observables of before the attempt), or
+    the call reports success and the transaction is recorded as unconfirmed. *)
+Theorem C20_known_or_confirmed_consistent : forall U s F t a,
+  is_known a = true ->
   wf_universe U = true -> Inv U s F -> event_ok U F (Seen t) = true -> fresh U F t = true ->
-  exists s', publish code_cfg U t a true s = (PSuccess, s') /\
-             Inv U s' F /\ same_observables U s s' F.
+  exists r s', publish code_cfg U t a true s = (r, s') /\
+               ((Inv U s' F /\ same_observables U s s' F) \/ (r = PSuccess /\ Inv U s' (spec_seen U F t))).
 Proof.
-  intros U s F t a [-> | ->] Hwf.
-  - exact (known_answer_no_trace U Hwf code_cfg s F t AKnown eq_refl).
-  - exact (known_answer_no_trace U Hwf code_cfg s F t AConfirmed eq_refl).
+  exact (fun U s F t a Ha Hwf => known_answer_consistent U Hwf code_cfg s F t a
+           (by_class_known code_cfg code_base C20_every_answer_by_class a eq_refl eq_refl Ha)).
 Qed.
-Print Assumptions C20_known_or_confirmed_not_kept.
+Print Assumptions C20_known_or_confirmed_consistent.
 
 (** Accepted, or already in the backend's mempool: success; the facts are the
     previous ones plus t as unconfirmed; t is in the unconfirmed set exactly
@@ -77,7 +130,7 @@ Print Assumptions C20_known_or_confirmed_not_kept.
     like every balance - is that of the ledger with t known (its credits
     counted once, the coins it spends not at all). *)
 Theorem C20_mempool_tx_recorded_once : forall U s F t a,
-  a = AAccept \/ a = AInMempool ->
+  is_mempool a = true ->
   wf_universe U = true -> Inv U s F -> event_ok U F (Seen t) = true ->
   exists s', publish code_cfg U t a true s = (PSuccess, s') /\ Inv U s' (spec_seen U F t) /\
     (known F t = false ->
@@ -89,34 +142,47 @@ Theorem C20_mempool_tx_recorded_once : forall U s F t a,
        (forall c h b, f_conf F !! c = Some (h, b) -> h <= sync) ->
        balance U s' minconf sync now = spec_balance U (spec_seen U F t) minconf sync now).
 Proof.
-  intros U s F t a [-> | ->] Hwf.
-  - exact (mempool_tx_recorded_once U Hwf code_cfg s F t AAccept eq_refl).
-  - exact (mempool_tx_recorded_once U Hwf code_cfg s F t AInMempool eq_refl).
+  exact (fun U s F t a Ha Hwf => mempool_tx_recorded_once U Hwf code_cfg s F t a
+           (by_class_mempool code_cfg code_base C20_every_answer_by_class a eq_refl eq_refl Ha)).
 Qed.
 Print Assumptions C20_mempool_tx_recorded_once.
 
 (** A transaction that is ALREADY recorded as unconfirmed (re-broadcast after
     a restart, or PublishTransaction of a known transaction) and is now
-    refused - rejected, or reported as known/confirmed: it is forgotten
-    together with every unconfirmed transaction that transitively spends its
-    outputs; every other unconfirmed transaction, the confirmed ones and the
-    leases stay. *)
-Theorem C20_failed_rebroadcast_forgets_descendants : forall U s F t a,
-  a = AReject \/ a = AKnown \/ a = AConfirmed ->
+    rejected: the caller gets the error and it is forgotten together with
+    every unconfirmed transaction that transitively spends its outputs; every
+    other unconfirmed transaction, the confirmed ones and the leases stay. *)
+Theorem C20_rejected_rebroadcast_forgets_descendants : forall U s F t a,
+  is_rejection a = true ->
   wf_universe U = true -> Inv U s F -> t ∈ f_unconf F ->
-  exists s', publish code_cfg U t a true s = ((if decide (a = AReject) then PError else PSuccess), s') /\
+  exists s', publish code_cfg U t a true s = (PError, s') /\
     Inv U s' (spec_abandon U F t) /\
     t ∉ f_unconf (spec_abandon U F t) /\
     (forall c, depends_on U F [t] c -> c ∉ f_unconf (spec_abandon U F t)) /\
     (forall c, c ∈ f_unconf F -> ~ depends_on U F [t] c -> c ∈ f_unconf (spec_abandon U F t)) /\
     f_conf (spec_abandon U F t) = f_conf F /\ f_leases (spec_abandon U F t) = f_leases F.
 Proof.
-  intros U s F t a [-> | [-> | ->]] Hwf.
-  - exact (failed_rebroadcast_forgets_descendants U Hwf code_cfg s F t AReject true eq_refl).
-  - exact (failed_rebroadcast_forgets_descendants U Hwf code_cfg s F t AKnown true eq_refl).
-  - exact (failed_rebroadcast_forgets_descendants U Hwf code_cfg s F t AConfirmed true eq_refl).
+  exact (fun U s F t a Ha Hwf => rejected_rebroadcast_forgets_descendants U Hwf code_cfg s F t a
+           (C20_every_rejection_removes_and_errors a Ha)).
 Qed.
-Print Assumptions C20_failed_rebroadcast_forgets_descendants.
+Print Assumptions C20_rejected_rebroadcast_forgets_descendants.
+
+(** ... and whenever the branch taken removes the transaction at all (as the
+    code does today on "already known / confirmed"), the removal is that same
+    recursive one. *)
+Theorem C20_removal_forgets_descendants : forall U s F t a,
+  act_removes (cfg_class code_cfg a) = true ->
+  wf_universe U = true -> Inv U s F -> t ∈ f_unconf F ->
+  exists s', publish code_cfg U t a true s = (result_of (branch_of code_cfg a true), s') /\
+    Inv U s' (spec_abandon U F t) /\
+    t ∉ f_unconf (spec_abandon U F t) /\
+    (forall c, depends_on U F [t] c -> c ∉ f_unconf (spec_abandon U F t)) /\
+    (forall c, c ∈ f_unconf F -> ~ depends_on U F [t] c -> c ∈ f_unconf (spec_abandon U F t)) /\
+    f_conf (spec_abandon U F t) = f_conf F /\ f_leases (spec_abandon U F t) = f_leases F.
+Proof.
+  exact (fun U s F t a Ha Hwf => failed_rebroadcast_forgets_descendants U Hwf code_cfg s F t a true Ha).
+Qed.
+Print Assumptions C20_removal_forgets_descendants.
 
 (** Every attempt, every answer class, subscription failure included: the
     removal never runs out of fuel and the resulting store satisfies the
@@ -124,7 +190,7 @@ Print Assumptions C20_failed_rebroadcast_forgets_descendants.
     forgotten with its descendants exactly when the branch taken removes). *)
 Theorem C20_every_attempt_refines : forall U s F t a ok,
   wf_universe U = true -> Inv U s F -> event_ok U F (Seen t) = true ->
-  exists s', publish code_cfg U t a ok s = (result_of (branch code_cfg a ok), s') /\
+  exists s', publish code_cfg U t a ok s = (result_of (branch_of code_cfg a ok), s') /\
              Inv U s' (spec_publish_cfg code_cfg U F t a ok).
 Proof. exact (fun U s F t a ok Hwf => publish_ok U Hwf code_cfg s F t a ok). Qed.
 Print Assumptions C20_every_attempt_refines.
@@ -143,7 +209,7 @@ Theorem C20_resend_offers_all_parents_first : forall U s F pi1 pi2 answers,
     l ≡ₚ elements (f_unconf F) /\ NoDup l /\
     (forall p c, p ∈ f_unconf F -> c ∈ f_unconf F -> spends_output_of U c p = true ->
                  KahnProofs.before p c l) /\
-    length rs = length l /\ PFuel ∉ rs /\
+    List.length rs = List.length l /\ PFuel ∉ rs /\
     Inv U s' (spec_resend_list code_cfg U l answers F).
 Proof. exact (fun U s F pi1 pi2 answers Hwf => resend_offers_all_parents_first U Hwf code_cfg s F pi1 pi2 answers). Qed.
 Print Assumptions C20_resend_offers_all_parents_first.
@@ -153,9 +219,9 @@ Print Assumptions C20_resend_offers_all_parents_first.
     lemmas) the statements hold in every state reached by a chain-consistent
     history. *)
 Theorem C20_over_histories : refinement_statement ->
-  forall U h t, wf_universe U = true -> chain_consistent U h = true ->
+  forall U h t a, is_rejection a = true -> wf_universe U = true -> chain_consistent U h = true ->
   event_ok U (fs (spec_run U h)) (Seen t) = true -> fresh U (fs (spec_run U h)) t = true ->
-  (exists s', publish code_cfg U t AReject true (st (run U h)) = (PError, s') /\
+  (exists s', publish code_cfg U t a true (st (run U h)) = (PError, s') /\
               Inv U s' (fs (spec_run U h)) /\
               same_observables U (st (run U h)) s' (fs (spec_run U h))) /\
   (forall pi1 pi2 answers,
@@ -165,22 +231,23 @@ Theorem C20_over_histories : refinement_statement ->
        (forall p c, p ∈ f_unconf (fs (spec_run U h)) -> c ∈ f_unconf (fs (spec_run U h)) ->
                     spends_output_of U c p = true -> KahnProofs.before p c l)).
 Proof.
-  intros Href U h t Hwf Hc Hok Hfr. split.
-  - exact (failed_attempt_no_trace_after_history Href code_cfg U h t AReject true eq_refl Hwf Hc Hok Hfr).
+  intros Href U h t a Ha Hwf Hc Hok Hfr. split.
+  - exact (failed_attempt_no_trace_after_history Href code_cfg U h t a true
+             (C20_every_rejection_removes_and_errors a Ha) Hwf Hc Hok Hfr).
   - intros pi1 pi2 answers. exact (resend_after_history Href code_cfg U h pi1 pi2 answers Hwf Hc).
 Qed.
 Print Assumptions C20_over_histories.
 
 (** ... and that refinement is a closed theorem ([RefineAll.refinement]: every
     event of a chain-consistent history preserves the invariant), so: after
-    EVERY chain-consistent wallet history, a rejected fresh transaction leaves
-    balances, spendable set and unconfirmed set as they were, and a
-    re-broadcast offers exactly the unconfirmed transactions, each once,
-    parents first. *)
+    EVERY chain-consistent wallet history, a fresh transaction rejected with
+    whatever error of the rejection class leaves balances, spendable set and
+    unconfirmed set as they were, and a re-broadcast offers exactly the
+    unconfirmed transactions, each once, parents first. *)
 Theorem C20_after_every_history :
-  forall U h t, wf_universe U = true -> chain_consistent U h = true ->
+  forall U h t a, is_rejection a = true -> wf_universe U = true -> chain_consistent U h = true ->
   event_ok U (fs (spec_run U h)) (Seen t) = true -> fresh U (fs (spec_run U h)) t = true ->
-  (exists s', publish code_cfg U t AReject true (st (run U h)) = (PError, s') /\
+  (exists s', publish code_cfg U t a true (st (run U h)) = (PError, s') /\
               Inv U s' (fs (spec_run U h)) /\
               same_observables U (st (run U h)) s' (fs (spec_run U h))) /\
   (forall pi1 pi2 answers,
@@ -191,6 +258,30 @@ Theorem C20_after_every_history :
                     spends_output_of U c p = true -> KahnProofs.before p c l)).
 Proof. exact (C20_over_histories RefineAll.refinement). Qed.
 Print Assumptions C20_after_every_history.
+
+(** The error mapping (chain/errors.go; MapRPCErr of the three backends).
+    The regenerated tables map every text to a sentinel of the text's class:
+    the nine texts by which a node says "I have it already"
+    ([accepting_texts]) to the sentinel of their class, every other key to a
+    sentinel of the rejection class. *)
+Theorem C20_mapping_tables_respect_classes : tables_respect code_tables = true.
+Proof. exact (eq_refl true <: tables_respect code_tables = true). Qed.
+Print Assumptions C20_mapping_tables_respect_classes.
+
+(** Hence a node's reply that contains none of those nine texts comes out of
+    MapRPCErr - of every backend, whatever the iteration order of the Go maps -
+    as an error of the rejection class, on which publishTransaction removes
+    the transaction and returns the error: a rejection is never taken for
+    "the node has it". *)
+Theorem C20_rejection_text_stays_rejection : forall b msg c,
+  plain_rejection_text msg = true -> In c (map_candidates code_tables b msg) ->
+  is_rejection (ASentinel c) = true /\ cfg_class code_cfg (ASentinel c) = drop_err.
+Proof.
+  exact (fun b msg c Hm Hc =>
+           let H := rejection_text_is_rejected code_tables b msg C20_mapping_tables_respect_classes Hm c Hc in
+           conj H (C20_every_rejection_removes_and_errors (ASentinel c) H)).
+Qed.
+Print Assumptions C20_rejection_text_stays_rejection.
 
 (* ------------------------------------------------------------------ *)
 (** Non-vacuity.  Universe: 1 = a confirmed payment to the wallet (100000);
@@ -256,6 +347,35 @@ Example C20_refuted_notify_failure :
    ops s' = [(2%N, 1%N); (4%N, 0%N)]) /\
   (let '(r, s') := publish expected_cfg ex_U 2 AAccept false ex_s in
    r = PError /\ unmined_hashes s' = [4%N] /\ bal0 s' = 107000 /\ ops s' = ops ex_s).
+Proof. vm_compute. repeat split. Qed.
+
+(** The escape named by the review: publishTransaction gets
+    `case errors.Is(rpcErr, chain.ErrMempoolMinFeeNotMet): return nil, rpcErr`
+    (keep the transaction for a later retry).  The table then is not sound,
+    and the caller gets an error while the transaction stays recorded, the
+    coin it spends is gone and its change is counted. *)
+Definition escape_table : list (string * action) :=
+  map (fun r => if String.eqb r.1 "ErrMempoolMinFeeNotMet" then (r.1, keep_err) else r) code_table.
+Definition escape_cfg : pcfg := {| cfg_notify := drop_err; cfg_class := table_class code_base escape_table |}.
+
+Example C20_refuted_kept_on_min_fee :
+  table_sound code_base escape_table = false /\
+  is_rejection (ASentinel "ErrMempoolMinFeeNotMet") = true /\
+  (let '(r, s') := publish escape_cfg ex_U 2 (ASentinel "ErrMempoolMinFeeNotMet") true ex_s in
+   r = PError /\ unmined_hashes s' = [2%N; 4%N] /\ bal0 s' = 76000) /\
+  (let '(r, s') := publish code_cfg ex_U 2 (ASentinel "ErrMempoolMinFeeNotMet") true ex_s in
+   r = PError /\ unmined_hashes s' = [4%N] /\ bal0 s' = 107000 /\ ops s' = ops ex_s).
+Proof. vm_compute. repeat split. Qed.
+
+(** the mapping model on "I have it" replies as the nodes put them on the wire
+    (only texts that [accepting_texts] pins anyway) *)
+Example C20_mapping_examples :
+  map_candidates code_tables BBitcoind "-26: txn-already-in-mempool" = ["ErrTxAlreadyInMempool"] /\
+  map_candidates code_tables BBitcoind "-27: Transaction outputs already in utxo set" = ["ErrTxAlreadyConfirmed"] /\
+  map_candidates code_tables BBtcdOld "-26: TX rejected: already have transaction 4a5e" = ["ErrTxAlreadyInMempool"] /\
+  map_candidates code_tables BBtcd "-26: TX rejected: already have transaction 4a5e" = ["ErrUndefined"] /\
+  plain_rejection_text "-26: mempool min fee not met, 141 < 1000" = true /\
+  plain_rejection_text "-26: txn-already-in-mempool" = false.
 Proof. vm_compute. repeat split. Qed.
 
 (* ------------------------------------------------------------------ *)
